@@ -325,6 +325,24 @@ def cap_source(F, R):
             R.ob('C05.cap-source', '%s|set_cap-not-literal' % name, not consts, 'literal window %s' % consts, b.loc(bi))
 
 
+def cap_stored_verbatim(F, R):
+    """set_cap(n) stores n: the window in force is the negotiated value itself - no constant can reach the cell (a `0 means
+    unlimited` mapping turns min(0, peer Receive Maximum) = 0 into no limit at all)."""
+    n = 0
+    for ver in ('v3', 'v5'):
+        b = F.one(r'^%s::shared::MqttShared::set_cap$' % ver)
+        for bi, t in b.calls_to(r'^std::cell::Cell::<T>::set$'):
+            if (call_recv_path(b, t, 0) or ('',))[-1] != 'cap':
+                continue
+            n += 1
+            vals = reaching_defs(b, t['args'][1])
+            consts = [x for x in vals if x[0] == 'const']
+            from_arg = any(x[0] == 'arg' for x in vals)
+            R.ob('C05.cap-source', '%s|set_cap|stores-its-argument' % ver, from_arg and not consts and all(x[0] == 'arg' for x in vals),
+                 'set_cap() can store something else than the value it was given (%s): the send window in force is not the negotiated one' % sorted({x[0] for x in vals}), b.loc(bi))
+    R.floor('C05.cap-source', 'stores of the send window', n, 2)
+
+
 def reaching_defs(b, op, limit=80):
     """Terminal definitions of an operand's value: copies, moves, casts and field-less reborrows are followed backwards,
     every definition of a local that is assigned on several branches is followed; stops at calls, aggregates, operators.
@@ -439,3 +457,4 @@ def run(F, R):
         check_then_act(F, R, ver)
         eager_reservation(F, R, ver)
     cap_source(F, R)
+    cap_stored_verbatim(F, R)
